@@ -515,6 +515,16 @@ func (x *FnExec) run() {
 	st.reach = reach0
 	x.obligeSat("vacuity", "vacuity", "requires and global invariants are satisfiable", reach0)
 
+	for _, own := range x.con.Owns {
+		if tv, ok := env.vars[own]; ok && tv.T != nil {
+			if p, ok := tv.T.Underlying().(*types.Pointer); ok {
+				x.freshObjs = append(x.freshObjs, &freshObj{addr: tv.V.T, t: p.Elem()})
+				x.ctx.Note("assumed: the object " + own + " points to is not aliased by keeper state: callees that are not handed its address do not modify it")
+				continue
+			}
+		}
+		x.errorf("owns %s: not a pointer parameter", own)
+	}
 	x.collectDebugNames()
 	x.findLoops()
 	order := x.blockOrder()
